@@ -200,16 +200,37 @@ func VC14_pcs() {
 	vrt.Assume(ps != 0 && ps < 1<<8)
 	pc1, pc2 := vrt.U64(), vrt.U64()
 	vrt.Assume(pc1 < 1<<8 && pc2 < 1<<8)
-	trap := vrt.Bool()
-	sym1 := "main.f(" + c14ascii(1) + ")"
-	if trap {
+	// the first frame's symbol line: an ordinary function, the genuine runtime.sigpanic
+	// frame, or text that merely contains "runtime.sigpanic(" - behind a prefix byte,
+	// inside the arguments, or as a longer symbol; only the genuine one marks a trap
+	trap, nearMiss := false, false
+	var sym1 string
+	switch vrt.Choose(5) {
+	case 0:
+		sym1 = "main.f(" + c14ascii(1) + ")"
+	case 1:
+		trap = true
 		sym1 = "runtime.sigpanic(" + c14ascii(1) + ")"
+	case 2:
+		nearMiss = true
+		sym1 = c14ascii(1) + "runtime.sigpanic(" + c14ascii(1) + ")"
+	case 3:
+		nearMiss = true
+		sym1 = "main.f(runtime.sigpanic(" + c14ascii(1) + "))"
+	default:
+		nearMiss = true
+		x := c14ascii(1)
+		vrt.Assume(x[0] != '(')
+		sym1 = "runtime.sigpanic" + x + "()"
 	}
 	crash := "sentinel " + c14hex(ps) + "\n" + c14ascii(2) + "\ngoroutine 7 [running]:\n" +
 		sym1 + "\n\t" + c14ascii(1) + " pc=0x" + c14hex(pc1) + "\n" +
 		"main.g(" + c14ascii(1) + ")\n\t" + c14ascii(1) + " pc=0x" + c14hex(pc2) + "\n" +
 		"\ngoroutine 8 [running]:\nmain.h()\n\t pc=0x1\n"
 	pcs, err := parseStackPCs(crash)
+	if nearMiss && err != nil {
+		return // other text may make the report unusable, it may not change the PCs
+	}
 	vrt.Assert(err == nil && len(pcs) == 2, "parseStackPCs: two frames of the first running goroutine")
 	if err != nil || len(pcs) != 2 {
 		return
